@@ -190,6 +190,7 @@ def c01_rf18(run):
     rf_flow.rf32(run)
     rf_flow.rf36(run)
     rf_flow.rf43(run)
+    rf_flow.rf44(run)
 
 
 def c04_rf18(run):
